@@ -13,6 +13,7 @@ import (
 	"path/filepath"
 	"regexp"
 	"slices"
+	"strings"
 	"testing"
 
 	"github.com/nspcc-dev/neo-go/pkg/config"
@@ -661,4 +662,100 @@ func (w *World) storageCount(name string) int {
 	n := 0
 	w.ex.Chain.SeekStorage(cs.ID, nil, func(k, v []byte) bool { n++; return true })
 	return n
+}
+
+
+// ---- stand-in contracts: raw preset storage for upgrade replays ----
+
+const standInSource = `package standin
+
+import (
+	"github.com/nspcc-dev/neo-go/pkg/interop/native/management"
+	"github.com/nspcc-dev/neo-go/pkg/interop/storage"
+)
+
+// nolint:deadcode,unused
+func _deploy(data any, isUpdate bool) {}
+
+// PutRaw writes one raw storage item.
+func PutRaw(key []byte, val any) {
+	storage.Put(storage.GetContext(), key, val)
+}
+
+// Update replaces the stand-in by the real contract: its _deploy(data, true) runs on the preset storage.
+func Update(nef []byte, manifest []byte, data any) {
+	management.UpdateWithData(nef, manifest, data)
+}
+`
+
+// deployStandIn deploys a contract with the real contract's NAME and an API to write raw storage items.
+func (w *World) deployStandIn(name string) {
+	dir, err := os.MkdirTemp("", "neosym-standin")
+	if err != nil {
+		panic(err)
+	}
+	w.t.cleanups = append(w.t.cleanups, func() { os.RemoveAll(dir) })
+	eng := filepath.Join(verifRoot, "engine")
+	gm, _ := os.ReadFile(filepath.Join(eng, "go.mod"))
+	gm = []byte(strings.Replace(string(gm), "=> /repo", "=> "+repoRoot, 1))
+	os.WriteFile(filepath.Join(dir, "go.mod"), gm, 0644)
+	gs, _ := os.ReadFile(filepath.Join(eng, "go.sum"))
+	os.WriteFile(filepath.Join(dir, "go.sum"), gs, 0644)
+	pkg := filepath.Join(dir, "s")
+	os.MkdirAll(pkg, 0755)
+	os.WriteFile(filepath.Join(pkg, "contract.go"), []byte(standInSource), 0644)
+	real := w.config(name)
+	cfg := fmt.Sprintf("name: %q\npermissions:\n  - methods: [\"update\"]\n", real.Name)
+	os.WriteFile(filepath.Join(pkg, "config.yml"), []byte(cfg), 0644)
+	c := neotest.CompileFile(w.t, w.validator.ScriptHash(), pkg, filepath.Join(pkg, "config.yml"))
+	if name != "nns" && w.nns == (util.Uint160{}) {
+		w.deploy("nns", []any{[]any{[]any{"neofs", "ops@nspcc.io"}}})
+	}
+	if name != "nns" {
+		inv := w.ex.NewInvoker(w.nns, w.uniq(w.validator, w.committee)...)
+		inv.Invoke(w.t, true, "register", name+".neofs", w.committee.ScriptHash(), "ops@nspcc.ru", int64(3600), int64(600), int64(10*365*24*3600), int64(3600))
+		inv.Invoke(w.t, nil, "addRecord", name+".neofs", 16, c.Hash.StringLE())
+	}
+	rawManifest, _ := jsonMarshal(c.Manifest)
+	neb, _ := c.NEF.Bytes()
+	script, err := smartcontract.CreateCallScript(w.ex.Chain.ManagementContractHash(), "deploy", neb, rawManifest, nil)
+	if err != nil {
+		panic(err)
+	}
+	aer := w.sendScript(script, w.uniq(w.validator, w.committee, w.alphabet))
+	if aer.VMState != vmstate.Halt {
+		panic(failNow{"deploy of the stand-in for " + name + " faulted: " + aer.FaultException})
+	}
+	w.hashes[name] = c.Hash
+	if name == "nns" {
+		w.nns = c.Hash
+	}
+}
+
+func (w *World) putRaw(name string, key []byte, val any) {
+	ok, _, fault := w.invoke(name, nil, "putRaw", []any{key, val})
+	if !ok {
+		panic(failNow{"putRaw into the stand-in for " + name + " faulted: " + fault})
+	}
+}
+
+func (w *World) updateStandIn(name string, data []any) (bool, string) {
+	c := w.compile(name)
+	rawManifest, _ := jsonMarshal(c.Manifest)
+	neb, _ := c.NEF.Bytes()
+	var hs [][]byte
+	for _, s := range w.uniq(w.committee, w.alphabet) {
+		hs = append(hs, s.ScriptHash().BytesBE())
+	}
+	ok, _, fault := w.invoke(name, hs, "update", []any{neb, rawManifest, data})
+	return ok, fault
+}
+
+// serialize: the VM's binary serialization of a value (what std.Serialize stores).
+func (w *World) serialize(v any) []byte {
+	b, err := stackitem.Serialize(stackitem.Make(v))
+	if err != nil {
+		panic(err)
+	}
+	return b
 }
